@@ -79,14 +79,16 @@ def showOpt : Option Rat → String
 
 def handlers : List (String × Handler) := [
   -- alt.kfl <L> <clip> <dims> <K rows (term, dim) term-major> <scale> <bias> <xs rows>
-  --   -> "<dense kernel> <Kfl.eval per x> <Lattice on the dense kernel per x | ERR>"
+  --   -> "<dense kernel> <Kfl.eval per x> <Lattice(tensor input) on the dense kernel per x | ERR>
+  --       <Lattice(list input) … | ERR>"
   ("alt.kfl", fun args => match args with
     | [l, c, d, k, s, b, xs] => do
       let l ← l.toNat?; let c ← parseBool c; let d ← d.toNat?; let k ← parseRats2 k
       let s ← parseRats s; let b ← parseRat b; let xs ← parseRats2 xs
       let K := Tfl.Driver.Kfl.unflat d k
       let lat := batchM (kflAsLattice .tensor l c d K s b) xs
-      pure s!"{showRats (denseKernel l d K s b)} {showRats (xs.map (Kfl.eval l c K s b))} {showExcept showRats lat}"
+      let latL := batchM (kflAsLattice .list l c d K s b) xs
+      pure s!"{showRats (denseKernel l d K s b)} {showRats (xs.map (Kfl.eval l c K s b))} {showExcept showRats lat} {showExcept showRats latL}"
     | _ => none),
   -- alt.pwlfn <11 cfg tokens> <inParams rows|none> <outRank3> <outParams rows> <xs rows>
   --           <softmax table k;v;k;v|_> <sigmoid keys> <sigmoid values>  -> output rows | ERR
